@@ -147,6 +147,22 @@ def _same_object_history(ctx, pattern, text, other, rx_cache):
             if m is not None:
                 for g in range(m.match.re.groups + 1):
                     m.group(g)
+    # an editable target (MutableSeq) changed in place between two searches: each search is about the text as it is then
+    from Bio.Seq import MutableSeq
+    e = SeqRecord(MutableSeq(text), "e")
+    for lin in (False, True):
+        rx.search(e, linear=lin)
+    if text:
+        i = (len(text) * 7 + len(other)) % len(text)
+        e.seq[i] = "ACGT"[("ACGT".index(text[i].upper()) + 1) % 4] if text[i].upper() in "ACGT" else "A"
+        for lin in (False, True):
+            ctx.count("evaluations")
+            ctx.count("same_object_history_searches")
+            ctx.count("searches_after_edit_in_place")
+            m = rx.search(e, linear=lin)
+            if m is not None:
+                for g in range(m.match.re.groups + 1):
+                    m.group(g)
     r.seq = Seq(other)
     for lin in (False, True):
         ctx.count("evaluations")
